@@ -447,7 +447,7 @@ func vCall(thread *starlark.Thread, fn starlark.Value, args starlark.Tuple, kwar
 	for _, s := range spec.sources {
 		in += "|" + vTreeContent(vRoot+"/"+s)
 	}
-	for _, d := range spec.deps {
+	for _, d := range vDepsOf(spec) {
 		if ds := vBodies[vNameOf(d)]; ds != nil {
 			for _, g := range ds.gens {
 				in += "|" + vTreeContent(vRoot+"/"+g)
@@ -642,8 +642,11 @@ func vLoadProject() (*Project, error) {
 	for i := range vShape {
 		s := &vShape[i]
 		vBodies[s.name] = s
+		if vGone(s.name) {
+			continue // the target was removed from its BUILD file
+		}
 		m := &module{label: &label.Label{Kind: "module", Package: s.pkg, Name: "BUILD.dawn"}}
-		deps := append([]string{}, s.deps...)
+		deps := append([]string{}, vDepsOf(s)...)
 		if vBroken[s.name] {
 			deps = append(deps, "//:nosuch")
 		}
@@ -698,6 +701,25 @@ func vBuild(target string, opts *RunOptions) (loadErr, buildErr error, crashed b
 }
 
 var vBroken = map[string]bool{}
+var vDropped = map[string]bool{}
+
+// vGone: a target that has been removed from the project together with the edge to it.
+func vGone(name string) bool {
+	for top, d := range vDropped {
+		if sp := vBodies[top]; d && sp != nil && len(sp.deps) >= 2 && vNameOf(sp.deps[len(sp.deps)-1]) == name {
+			return true
+		}
+	}
+	return false
+}
+
+// vDepsOf: the function-target dependencies a target currently declares.
+func vDepsOf(s *vTargetSpec) []string {
+	if vDropped[s.name] && len(s.deps) >= 2 {
+		return s.deps[:len(s.deps)-1]
+	}
+	return s.deps
+}
 var vKept *Project
 var vKeepProject bool
 
@@ -734,7 +756,7 @@ func vClosure(name string, seen map[string]bool) {
 	}
 	seen[name] = true
 	s := vSpec(name)
-	for _, d := range s.deps {
+	for _, d := range vDepsOf(s) {
 		vClosure(vNameOf(d), seen)
 	}
 	for _, src := range s.sources {
@@ -752,7 +774,7 @@ func vClosure(name string, seen map[string]bool) {
 func vDependenciesOf(name string) []string {
 	var out []string
 	s := vSpec(name)
-	for _, d := range s.deps {
+	for _, d := range vDepsOf(s) {
 		out = append(out, vNameOf(d))
 	}
 	for _, src := range s.sources {
